@@ -398,7 +398,7 @@ fn check(tier: &str) -> i32 {
     let threads = simcommon::par::threads_from_env();
     let thorough = tier == "thorough";
     let scale = std::env::var("VERIF_SCALE").ok().and_then(|s| s.parse::<f64>().ok()).unwrap_or(1.0);
-    let total = ((if thorough { 400_000.0 } else { 12_000.0 }) * scale) as u64;
+    let total = ((if thorough { 150_000.0 } else { 12_000.0 }) * scale) as u64;
     let selftest_n = ((if thorough { 1000.0 } else { 64.0 }) * scale).max(8.0) as u64;
     eprintln!("[c20] seed={} tier={} workers={} runs={}", seed, tier, threads, total);
 
